@@ -136,7 +136,9 @@ def check_history(case):
                 else:
                     image = bytes((j * 7 + i) & 0xff
                                   for j in range(call["image"]))
-                    path = os.path.join(tmp, "img%d.boot" % i)
+                    # the same two file names are used again and again with
+                    # new contents (an image rebuilt between two boots)
+                    path = os.path.join(tmp, "img%d.boot" % (i % 2))
                     with open(path, "wb") as f:
                         f.write(image)
                     kwargs["scamp_binary"] = path
